@@ -67,6 +67,61 @@ CHECKS = {
          "default value or a library ValueError-derived error. Correspondence runs every function in all mode "
          "combinations on a malformed-first stream; exception classes are classified from the live class hierarchy.",
     design="§7 C08", technique="Lean 4 theorem (mode law for the shared strict/passthrough tail, per function) + model/implementation correspondence"),
+ "C09": dict(
+    text="Proof: chain is modelled as written (a fold of add_record(copy, merge=True) into an empty converter), so T2 applies "
+         "to every step: C09_wf (the result satisfies C04/C05, both case modes, every folding function), C09_union (it knows "
+         "exactly the union of the inputs' CURIE prefixes and URI prefixes), C09_error / C09_empty (only ValueError), and for "
+         "get_subconverter C09_sub_records (exactly the records with a prefix or synonym in P, well-formed) and C09_sub_expand "
+         "(answers as the parent on kept prefixes, None otherwise). Grouping, first-converter priority, chain([c]) and the "
+         "case-insensitive separation are evaluated on the implementation's outputs on every run (laws in harness/props/c09.py) "
+         "and through the correspondence; they are not yet theorems.",
+    design="§7 C09", technique="Lean 4 theorem (fold invariant over add_record steps) + model/implementation correspondence with planted overlaps"),
+ "C10": dict(
+    text="Proof at the aliasing level (Model/Heap.lean: Record objects behind references): C10_frame_chain and C10_frame_copy "
+         "(chain, get_subconverter, the three reconciliation functions and discover leave every pre-existing object untouched "
+         "and return a converter that references only new objects), C10_frame_followup and C10_histories (any finite follow-up "
+         "history on the derived converter leaves every input's view unchanged), plus the negation for the pre-repair chain "
+         "on a witness. Tie to the code: histories that re-observe both inputs (records, lookup dicts, introspection views, "
+         "probe queries) after the derivation and after every follow-up, and object identity (the derived converter shares no "
+         "Record object with an input).",
+    design="§7 C10", technique="Lean 4 theorem (frame theorems over a heap-of-records model, induction over follow-up histories) + history correspondence re-observing the inputs"),
+ "C11": dict(
+    text="Proof (partial): C11_order_errors (only the four documented errors), C11_ordering_perm (each pair processed exactly "
+         "once; the peel-off loop terminates), C11_skip_unknown, C11_step_uri_part / C11_run_uri_part (no step changes the number "
+         "of working records or any record's canonical URI prefix, URI-prefix synonyms or pattern). The remaining clauses "
+         "(record count of the final constructor call, every known prefix stays known, applicable pairs applied, clashes skipped) "
+         "are decided by the Lean checker Spec.C11.ok evaluated on the implementation's records on every run and by the "
+         "correspondence with the full model of the ordering and the main loop; they are not yet theorems about the model.",
+    design="§7 C11", technique="Lean 4 theorem (termination/permutation of the ordering, per-step invariants) + Lean spec checker on implementation output + model/implementation correspondence"),
+ "C12": dict(
+    text="Proof: C12_transitive_iff (TransitiveError iff some string is both key and value), C12_upgrade (for every record and "
+         "selected new URI prefix: CURIE side untouched, every URI prefix kept, at most the new one gained, new one canonical "
+         "iff unused or already a synonym of the record with the old canonical demoted to synonym, clash is a no-op), "
+         "C12_remap_records / C12_rewire_records (the constructor receives exactly the per-record images), C12_rewire_unknown. "
+         "Idempotence of rewire is checked on the implementation on every run (not a theorem).",
+    design="§7 C12", technique="Lean 4 theorem (per-record upgrade law, transitivity iff) + Lean spec checker on implementation output + model/implementation correspondence"),
+ "C13": dict(
+    text="Proof: C13_pm (each listed pair expands accordingly and its URI prefix is registered for it), C13_priority (first URI "
+         "prefix canonical, rest synonyms in order), C13_reverse_canonical (the canonical URI prefix of a group is a member of "
+         "minimal length, the rest are the synonyms), C13_jsonld (exactly which terms are taken), C13_upgrade_canonical / "
+         "C13_upgrade_recOK (lexicographically first prefix canonical; records pass the validators). Completeness of grouping, "
+         "dictionary-order independence of upgrade_prefix_map and file loading (str / Path) rest on the correspondence and on the "
+         "Lean checker comparing the implementation's records with the denoted ones.",
+    design="§7 C13", technique="Lean 4 theorem (per-loader denotation lemmas) + model/implementation correspondence incl. JSON files and rdflib graphs"),
+ "C19": dict(
+    text="Proof: C19_wf (valid strict converter, no synonyms), C19_ends (every URI prefix ends in a delimiter and comes from an "
+         "unrecognised input URI with an alphanumeric tail), C19_roundtrip_partial (with no cutoff every qualifying non-GitHub-"
+         "issue URI compresses and expands back to itself; metaprefix without ':'), C19_github_not_learned (the unrestricted "
+         "round trip is false: known finding F9). Order / repetition independence, numbering and the cutoff rule are checked "
+         "on the implementation on every run (three input orders) and through the correspondence; not yet theorems.",
+    design="§7 C19", technique="Lean 4 theorem (soundness/completeness of the collected prefixes, round trip via C01/C03) + model/implementation correspondence in three input orders"),
+ "C20": dict(
+    text="Proof: C20_prefix (is_w3c_prefix iff ASCII NCName), C20_luid (the identifier pattern matched in full = whitespace-free "
+         "and not starting with //, alternative by alternative), C20_curie (p:r accepted iff p empty or NCName and r a reference; "
+         "colon-free strings as bare references), C20_curie_never / C20_curie_no_space. Tie: exhaustive enumeration of all strings "
+         "over the 14 class representatives up to length 4 (quick) / 6 (thorough) plus random longer strings, compared with the "
+         "model and with the grammar of the property.",
+    design="§7 C20", technique="Lean 4 theorem (characterisation of the two fully-matched patterns) + exhaustive bounded correspondence over character-class representatives"),
 }
 
 NOT_YET = "check not built yet (work in progress; see DESIGN.md section 7 for the plan)"
